@@ -7,6 +7,7 @@ import (
 	"encoding/json"
 	"fmt"
 	"os"
+	"path/filepath"
 	"sort"
 	"strings"
 	"sync"
@@ -350,10 +351,18 @@ func (st *clientState) exec(op Op) (r OpResult) {
 	case "ResetConv":
 		r.Err = errStr(mgr.ResetConverter(op.Conv))
 	case "ConvRemove":
+		// the file goes away (the real watcher watches nothing in simulation), then the event
+		os.Remove(filepath.Join(st.s.dirs.Converter, op.Conv))
 		r.Err = errStr(mgr.VerifConverterFileEvent("remove", op.Conv))
 	case "ConvCreate":
+		copyFile(VconvPath, filepath.Join(st.s.dirs.Converter, op.Conv), 0o755)
 		r.Err = errStr(mgr.VerifConverterFileEvent("create", op.Conv))
 	case "ConvWrite":
+		// written or made executable (again): a change event
+		if _, err := os.Stat(filepath.Join(st.s.dirs.Converter, op.Conv)); err != nil {
+			copyFile(VconvPath, filepath.Join(st.s.dirs.Converter, op.Conv), 0o755)
+		}
+		os.Chmod(filepath.Join(st.s.dirs.Converter, op.Conv), 0o755)
 		r.Err = errStr(mgr.VerifConverterFileEvent("write", op.Conv))
 	case "Status":
 		stt := mgr.Status()
